@@ -145,3 +145,22 @@ impl Listing {
         Ok(())
     }
 }
+
+#[cfg(feature = "verif")]
+impl Listing {
+    /// Stored lines and diagnostics; the diagnostics sorted (they are
+    /// collected in hash-map order).
+    pub fn verif_dump(&self) -> String {
+        let sorted = |v: &[Error]| {
+            let mut s: Vec<String> = v.iter().map(|e| format!("{:?}", e)).collect();
+            s.sort();
+            s
+        };
+        format!(
+            "{:?}{:?}{:?}",
+            self.source,
+            sorted(&self.indirect_errors),
+            sorted(&self.direct_errors)
+        )
+    }
+}
